@@ -110,9 +110,11 @@ def _build(ctx, i):
             def exit(self, deeds=None):
                 if deeds is None:
                     ctx.live.discard(i)
-                super().exit(deeds=deeds)
-                if deeds is None:
-                    ctx.ev("Exit", i)
+                try:
+                    super().exit(deeds=deeds)
+                finally:          # a child's cease/exit context may raise out of the DoDoer's exit
+                    if deeds is None:
+                        ctx.ev("Exit", i)
         for k in d["kids"]:
             if k not in ctx.objs:
                 _build(ctx, k)
@@ -120,6 +122,12 @@ def _build(ctx, i):
         ctx.objs[i] = obj
         return obj
     script = d["script"]
+    hookraise = d.get("hookraise")      # one of clean/cease/abort/exit: that context raises after being logged
+
+    def hook(name):
+        ctx.ev(name.capitalize(), i)
+        if hookraise == name:
+            raise ScriptError(i)
     if kind == "doer":
         class PlainDoer(doing.Doer):
             def enter(self, *, temp=None):
@@ -148,13 +156,13 @@ def _build(ctx, i):
                     raise KeyboardInterrupt()
                 raise ScriptError(i)
             def clean(self):
-                ctx.ev("Clean", i)
+                hook("clean")
             def cease(self):
-                ctx.ev("Cease", i)
+                hook("cease")
             def abort(self, ex):
-                ctx.ev("Abort", i)
+                hook("abort")
             def exit(self):
-                ctx.ev("Exit", i)
+                hook("exit")
         obj = PlainDoer(tock=0.0)
     elif kind == "doergen":
         class GenDoer(doing.Doer):
@@ -178,13 +186,13 @@ def _build(ctx, i):
                     else:
                         raise ScriptError(i)
             def clean(self):
-                ctx.ev("Clean", i)
+                hook("clean")
             def cease(self):
-                ctx.ev("Cease", i)
+                hook("cease")
             def abort(self, ex):
-                ctx.ev("Abort", i)
+                hook("abort")
             def exit(self):
-                ctx.ev("Exit", i)
+                hook("exit")
         obj = GenDoer(tock=0.0)
     else:
         def body(tymth=None, tock=0.0, *, temp=None, **opts):
@@ -209,14 +217,14 @@ def _build(ctx, i):
                     else:
                         raise ScriptError(i)
             except GeneratorExit:
-                ctx.ev("Cease", i)
+                hook("cease")
             except Exception:
-                ctx.ev("Abort", i)
+                hook("abort")
                 raise
             else:
-                ctx.ev("Clean", i)
+                hook("clean")
             finally:
-                ctx.ev("Exit", i)
+                hook("exit")
             return done
         if kind == "bound":
             class Holder:
@@ -381,7 +389,15 @@ def prog_to_coq(p):
 EK = {"Enter", "Recur", "Clean", "Cease", "Abort", "Exit", "ExtRet", "RemRet", "DoReturn", "DoRaise"}
 
 
+def outside_model(prog):
+    """Programs the Coq model does not express (decided by the direct oracle only): a doer whose
+    clean/cease/abort/exit context itself raises."""
+    return any(d.get("hookraise") for d in prog["defs"].values())
+
+
 def to_coq(case, obs):
+    if outside_model(case):
+        return None
     tr = coq_list([f"({k}, {coq_N(i)}, {_hexfl(t)})" for k, i, t in obs["trace"]], "ekind * N * float")
     dones = coq_list([f"({coq_N(i)}, {coq_option(d, coq_bool, 'bool')})" for i, d in obs["dones"]], "N * option bool")
     scheds = coq_list([f"({coq_N(i)}, {coq_list([coq_N(j) for j in l], 'N')}, {coq_nat(n)})" for i, l, n in obs["scheds"]],
@@ -849,3 +865,30 @@ def clock_oracle(obs):
     if obs.get("caller_doers_changed"):
         return "the run modified the doers list object the caller handed to do()/ado() (runtime extend/remove must act on the Doist's own copy)"
     return None
+
+
+def gen_hookraise(rng, n):
+    """Programs in which one doer's clean/cease/abort/exit context raises (outside the Coq model: oracle only)."""
+    out = []
+    for _ in range(n):
+        p = gen_static(rng, n_leaves=rng.randint(2, 5), nest_depth=rng.choice([0, 1, 2]), faults=False, tocks="dyadic", limit_p=0.0)
+        leaves = leaf_ids(p)
+        which = rng.choice(["clean", "cease", "abort", "exit", "exit", "cease"])
+        i = rng.choice(leaves)
+        d = p["defs"][str(i)]
+        d["hookraise"] = which
+        longest = max(len(p["defs"][str(j)]["script"]) for j in leaves)
+        if which == "cease":
+            # force-closed by the limit while others are alive
+            d["script"] = [{"es": [], "out": ["y", None]} for _ in range(longest + 3)]
+            p["limit"] = p["tock"] * rng.choice([1, 2, 3])
+        elif which == "abort":
+            k = rng.randint(1, max(1, len(d["script"]) - 1))
+            d["script"] = d["script"][:k] + [{"es": [], "out": ["x"]}]
+        elif which == "exit" and rng.random() < 0.5:
+            d["script"] = [{"es": [], "out": ["y", None]} for _ in range(longest + 3)]
+            p["limit"] = p["tock"] * rng.choice([1, 2, 3])
+        if rng.random() < 0.3:
+            p["mode"] = "ado"
+        out.append(p)
+    return out
